@@ -6,12 +6,15 @@ import (
 	"net"
 	"strings"
 	"sync"
+	"time"
 )
 
 // Action is what the scripted origin does after it has read one request.
 type Action struct {
 	Write [][]byte // byte-exact response, one conn.Write per element
 	Close bool     // close the connection after writing
+	// Pauses[i] (optional) is how long the origin stays silent before it writes element i.
+	Pauses []time.Duration
 }
 
 // Origin is an in-process origin server that follows a byte-exact script and logs what it receives.
@@ -150,7 +153,10 @@ func (o *Origin) serve(idx int, c net.Conn) {
 			req = nil
 		}
 		act := o.Handler(idx, n, req, err)
-		for _, seg := range act.Write {
+		for i, seg := range act.Write {
+			if i < len(act.Pauses) && act.Pauses[i] > 0 {
+				time.Sleep(act.Pauses[i])
+			}
 			if _, werr := c.Write(seg); werr != nil {
 				return
 			}
